@@ -156,7 +156,7 @@ def impl_init():
                 cur = parse_packet(pkt)
                 prev = TCPPacketSignature.from_packet(parse_packet(U.scapy_from_spec({"flags": 2, "opts": "0101" + W.o_ts((cur.tcp.options.timestamp - c["up"][0]) % 2 ** 32, 0)})))
                 prev.received -= c["up"][1]
-            except BaseException:  # noqa
+            except Exception:  # noqa  (never a timeout: that one must reach the worker)
                 prev = last
         out = {"tcp": run(lambda: fingerprint_tcp(pkt, options=opts)), "mtu": run(lambda: fingerprint_mtu(pkt, options=opts)),
                "uptime": run(lambda: fingerprint_uptime(pkt, prev, options=opts))}
@@ -164,7 +164,7 @@ def impl_init():
             k = parse_packet(pkt)
             out["layout_len"] = len(k.tcp.options.layout)
             out["opt_bytes"] = max(0, k.tcp.header_length - 20)
-        except BaseException:  # noqa
+        except Exception:  # noqa
             pass
         return out
     return impl
